@@ -1,6 +1,9 @@
 package types
 
-import "verifsk/ext"
+import (
+	"verifsk/ext"
+	"verifsk/ext2"
+)
 
 type MyInt int
 
@@ -67,6 +70,14 @@ type Src struct {
 	F32 chan int
 	F33 [2]int
 	F34 fmtStringer
+	F35 *MyInt
+	F36 *S3
+	F37 *ext.ID
+	F38 []*S3
+	F39 []*MyInt
+	F40 ext.Box
+	F41 []ext2.T
+	F42 ext2.Code
 }
 
 // Dst00: every field has type int.
@@ -106,6 +117,14 @@ type Dst00 struct {
 	F32 int
 	F33 int
 	F34 int
+	F35 int
+	F36 int
+	F37 int
+	F38 int
+	F39 int
+	F40 int
+	F41 int
+	F42 int
 }
 
 // Dst01: every field has type int32.
@@ -145,6 +164,14 @@ type Dst01 struct {
 	F32 int32
 	F33 int32
 	F34 int32
+	F35 int32
+	F36 int32
+	F37 int32
+	F38 int32
+	F39 int32
+	F40 int32
+	F41 int32
+	F42 int32
 }
 
 // Dst02: every field has type int64.
@@ -184,6 +211,14 @@ type Dst02 struct {
 	F32 int64
 	F33 int64
 	F34 int64
+	F35 int64
+	F36 int64
+	F37 int64
+	F38 int64
+	F39 int64
+	F40 int64
+	F41 int64
+	F42 int64
 }
 
 // Dst03: every field has type uint8.
@@ -223,6 +258,14 @@ type Dst03 struct {
 	F32 uint8
 	F33 uint8
 	F34 uint8
+	F35 uint8
+	F36 uint8
+	F37 uint8
+	F38 uint8
+	F39 uint8
+	F40 uint8
+	F41 uint8
+	F42 uint8
 }
 
 // Dst04: every field has type float64.
@@ -262,6 +305,14 @@ type Dst04 struct {
 	F32 float64
 	F33 float64
 	F34 float64
+	F35 float64
+	F36 float64
+	F37 float64
+	F38 float64
+	F39 float64
+	F40 float64
+	F41 float64
+	F42 float64
 }
 
 // Dst05: every field has type string.
@@ -301,6 +352,14 @@ type Dst05 struct {
 	F32 string
 	F33 string
 	F34 string
+	F35 string
+	F36 string
+	F37 string
+	F38 string
+	F39 string
+	F40 string
+	F41 string
+	F42 string
 }
 
 // Dst06: every field has type bool.
@@ -340,6 +399,14 @@ type Dst06 struct {
 	F32 bool
 	F33 bool
 	F34 bool
+	F35 bool
+	F36 bool
+	F37 bool
+	F38 bool
+	F39 bool
+	F40 bool
+	F41 bool
+	F42 bool
 }
 
 // Dst07: every field has type MyInt.
@@ -379,6 +446,14 @@ type Dst07 struct {
 	F32 MyInt
 	F33 MyInt
 	F34 MyInt
+	F35 MyInt
+	F36 MyInt
+	F37 MyInt
+	F38 MyInt
+	F39 MyInt
+	F40 MyInt
+	F41 MyInt
+	F42 MyInt
 }
 
 // Dst08: every field has type MyStr.
@@ -418,6 +493,14 @@ type Dst08 struct {
 	F32 MyStr
 	F33 MyStr
 	F34 MyStr
+	F35 MyStr
+	F36 MyStr
+	F37 MyStr
+	F38 MyStr
+	F39 MyStr
+	F40 MyStr
+	F41 MyStr
+	F42 MyStr
 }
 
 // Dst09: every field has type ext.ID.
@@ -457,6 +540,14 @@ type Dst09 struct {
 	F32 ext.ID
 	F33 ext.ID
 	F34 ext.ID
+	F35 ext.ID
+	F36 ext.ID
+	F37 ext.ID
+	F38 ext.ID
+	F39 ext.ID
+	F40 ext.ID
+	F41 ext.ID
+	F42 ext.ID
 }
 
 // Dst10: every field has type ext.Label.
@@ -496,6 +587,14 @@ type Dst10 struct {
 	F32 ext.Label
 	F33 ext.Label
 	F34 ext.Label
+	F35 ext.Label
+	F36 ext.Label
+	F37 ext.Label
+	F38 ext.Label
+	F39 ext.Label
+	F40 ext.Label
+	F41 ext.Label
+	F42 ext.Label
 }
 
 // Dst11: every field has type S1.
@@ -535,6 +634,14 @@ type Dst11 struct {
 	F32 S1
 	F33 S1
 	F34 S1
+	F35 S1
+	F36 S1
+	F37 S1
+	F38 S1
+	F39 S1
+	F40 S1
+	F41 S1
+	F42 S1
 }
 
 // Dst12: every field has type S2.
@@ -574,6 +681,14 @@ type Dst12 struct {
 	F32 S2
 	F33 S2
 	F34 S2
+	F35 S2
+	F36 S2
+	F37 S2
+	F38 S2
+	F39 S2
+	F40 S2
+	F41 S2
+	F42 S2
 }
 
 // Dst13: every field has type S3.
@@ -613,6 +728,14 @@ type Dst13 struct {
 	F32 S3
 	F33 S3
 	F34 S3
+	F35 S3
+	F36 S3
+	F37 S3
+	F38 S3
+	F39 S3
+	F40 S3
+	F41 S3
+	F42 S3
 }
 
 // Dst14: every field has type Empty.
@@ -652,6 +775,14 @@ type Dst14 struct {
 	F32 Empty
 	F33 Empty
 	F34 Empty
+	F35 Empty
+	F36 Empty
+	F37 Empty
+	F38 Empty
+	F39 Empty
+	F40 Empty
+	F41 Empty
+	F42 Empty
 }
 
 // Dst15: every field has type ext.Pet.
@@ -691,6 +822,14 @@ type Dst15 struct {
 	F32 ext.Pet
 	F33 ext.Pet
 	F34 ext.Pet
+	F35 ext.Pet
+	F36 ext.Pet
+	F37 ext.Pet
+	F38 ext.Pet
+	F39 ext.Pet
+	F40 ext.Pet
+	F41 ext.Pet
+	F42 ext.Pet
 }
 
 // Dst16: every field has type struct{ X int }.
@@ -730,6 +869,14 @@ type Dst16 struct {
 	F32 struct{ X int }
 	F33 struct{ X int }
 	F34 struct{ X int }
+	F35 struct{ X int }
+	F36 struct{ X int }
+	F37 struct{ X int }
+	F38 struct{ X int }
+	F39 struct{ X int }
+	F40 struct{ X int }
+	F41 struct{ X int }
+	F42 struct{ X int }
 }
 
 // Dst17: every field has type *S1.
@@ -769,6 +916,14 @@ type Dst17 struct {
 	F32 *S1
 	F33 *S1
 	F34 *S1
+	F35 *S1
+	F36 *S1
+	F37 *S1
+	F38 *S1
+	F39 *S1
+	F40 *S1
+	F41 *S1
+	F42 *S1
 }
 
 // Dst18: every field has type **S1.
@@ -808,6 +963,14 @@ type Dst18 struct {
 	F32 **S1
 	F33 **S1
 	F34 **S1
+	F35 **S1
+	F36 **S1
+	F37 **S1
+	F38 **S1
+	F39 **S1
+	F40 **S1
+	F41 **S1
+	F42 **S1
 }
 
 // Dst19: every field has type *int.
@@ -847,6 +1010,14 @@ type Dst19 struct {
 	F32 *int
 	F33 *int
 	F34 *int
+	F35 *int
+	F36 *int
+	F37 *int
+	F38 *int
+	F39 *int
+	F40 *int
+	F41 *int
+	F42 *int
 }
 
 // Dst20: every field has type []int.
@@ -886,6 +1057,14 @@ type Dst20 struct {
 	F32 []int
 	F33 []int
 	F34 []int
+	F35 []int
+	F36 []int
+	F37 []int
+	F38 []int
+	F39 []int
+	F40 []int
+	F41 []int
+	F42 []int
 }
 
 // Dst21: every field has type []MyInt.
@@ -925,6 +1104,14 @@ type Dst21 struct {
 	F32 []MyInt
 	F33 []MyInt
 	F34 []MyInt
+	F35 []MyInt
+	F36 []MyInt
+	F37 []MyInt
+	F38 []MyInt
+	F39 []MyInt
+	F40 []MyInt
+	F41 []MyInt
+	F42 []MyInt
 }
 
 // Dst22: every field has type []S1.
@@ -964,6 +1151,14 @@ type Dst22 struct {
 	F32 []S1
 	F33 []S1
 	F34 []S1
+	F35 []S1
+	F36 []S1
+	F37 []S1
+	F38 []S1
+	F39 []S1
+	F40 []S1
+	F41 []S1
+	F42 []S1
 }
 
 // Dst23: every field has type []*S1.
@@ -1003,6 +1198,14 @@ type Dst23 struct {
 	F32 []*S1
 	F33 []*S1
 	F34 []*S1
+	F35 []*S1
+	F36 []*S1
+	F37 []*S1
+	F38 []*S1
+	F39 []*S1
+	F40 []*S1
+	F41 []*S1
+	F42 []*S1
 }
 
 // Dst24: every field has type [][]S1.
@@ -1042,6 +1245,14 @@ type Dst24 struct {
 	F32 [][]S1
 	F33 [][]S1
 	F34 [][]S1
+	F35 [][]S1
+	F36 [][]S1
+	F37 [][]S1
+	F38 [][]S1
+	F39 [][]S1
+	F40 [][]S1
+	F41 [][]S1
+	F42 [][]S1
 }
 
 // Dst25: every field has type []string.
@@ -1081,6 +1292,14 @@ type Dst25 struct {
 	F32 []string
 	F33 []string
 	F34 []string
+	F35 []string
+	F36 []string
+	F37 []string
+	F38 []string
+	F39 []string
+	F40 []string
+	F41 []string
+	F42 []string
 }
 
 // Dst26: every field has type []interface{}.
@@ -1120,6 +1339,14 @@ type Dst26 struct {
 	F32 []interface{}
 	F33 []interface{}
 	F34 []interface{}
+	F35 []interface{}
+	F36 []interface{}
+	F37 []interface{}
+	F38 []interface{}
+	F39 []interface{}
+	F40 []interface{}
+	F41 []interface{}
+	F42 []interface{}
 }
 
 // Dst27: every field has type []ext.Pet.
@@ -1159,6 +1386,14 @@ type Dst27 struct {
 	F32 []ext.Pet
 	F33 []ext.Pet
 	F34 []ext.Pet
+	F35 []ext.Pet
+	F36 []ext.Pet
+	F37 []ext.Pet
+	F38 []ext.Pet
+	F39 []ext.Pet
+	F40 []ext.Pet
+	F41 []ext.Pet
+	F42 []ext.Pet
 }
 
 // Dst28: every field has type map[string]int.
@@ -1198,6 +1433,14 @@ type Dst28 struct {
 	F32 map[string]int
 	F33 map[string]int
 	F34 map[string]int
+	F35 map[string]int
+	F36 map[string]int
+	F37 map[string]int
+	F38 map[string]int
+	F39 map[string]int
+	F40 map[string]int
+	F41 map[string]int
+	F42 map[string]int
 }
 
 // Dst29: every field has type interface{}.
@@ -1237,6 +1480,14 @@ type Dst29 struct {
 	F32 interface{}
 	F33 interface{}
 	F34 interface{}
+	F35 interface{}
+	F36 interface{}
+	F37 interface{}
+	F38 interface{}
+	F39 interface{}
+	F40 interface{}
+	F41 interface{}
+	F42 interface{}
 }
 
 // Dst30: every field has type error.
@@ -1276,6 +1527,14 @@ type Dst30 struct {
 	F32 error
 	F33 error
 	F34 error
+	F35 error
+	F36 error
+	F37 error
+	F38 error
+	F39 error
+	F40 error
+	F41 error
+	F42 error
 }
 
 // Dst31: every field has type func().
@@ -1315,6 +1574,14 @@ type Dst31 struct {
 	F32 func()
 	F33 func()
 	F34 func()
+	F35 func()
+	F36 func()
+	F37 func()
+	F38 func()
+	F39 func()
+	F40 func()
+	F41 func()
+	F42 func()
 }
 
 // Dst32: every field has type chan int.
@@ -1354,6 +1621,14 @@ type Dst32 struct {
 	F32 chan int
 	F33 chan int
 	F34 chan int
+	F35 chan int
+	F36 chan int
+	F37 chan int
+	F38 chan int
+	F39 chan int
+	F40 chan int
+	F41 chan int
+	F42 chan int
 }
 
 // Dst33: every field has type [2]int.
@@ -1393,6 +1668,14 @@ type Dst33 struct {
 	F32 [2]int
 	F33 [2]int
 	F34 [2]int
+	F35 [2]int
+	F36 [2]int
+	F37 [2]int
+	F38 [2]int
+	F39 [2]int
+	F40 [2]int
+	F41 [2]int
+	F42 [2]int
 }
 
 // Dst34: every field has type fmtStringer.
@@ -1432,5 +1715,388 @@ type Dst34 struct {
 	F32 fmtStringer
 	F33 fmtStringer
 	F34 fmtStringer
+	F35 fmtStringer
+	F36 fmtStringer
+	F37 fmtStringer
+	F38 fmtStringer
+	F39 fmtStringer
+	F40 fmtStringer
+	F41 fmtStringer
+	F42 fmtStringer
 }
 
+// Dst35: every field has type *MyInt.
+type Dst35 struct {
+	F00 *MyInt
+	F01 *MyInt
+	F02 *MyInt
+	F03 *MyInt
+	F04 *MyInt
+	F05 *MyInt
+	F06 *MyInt
+	F07 *MyInt
+	F08 *MyInt
+	F09 *MyInt
+	F10 *MyInt
+	F11 *MyInt
+	F12 *MyInt
+	F13 *MyInt
+	F14 *MyInt
+	F15 *MyInt
+	F16 *MyInt
+	F17 *MyInt
+	F18 *MyInt
+	F19 *MyInt
+	F20 *MyInt
+	F21 *MyInt
+	F22 *MyInt
+	F23 *MyInt
+	F24 *MyInt
+	F25 *MyInt
+	F26 *MyInt
+	F27 *MyInt
+	F28 *MyInt
+	F29 *MyInt
+	F30 *MyInt
+	F31 *MyInt
+	F32 *MyInt
+	F33 *MyInt
+	F34 *MyInt
+	F35 *MyInt
+	F36 *MyInt
+	F37 *MyInt
+	F38 *MyInt
+	F39 *MyInt
+	F40 *MyInt
+	F41 *MyInt
+	F42 *MyInt
+}
+
+// Dst36: every field has type *S3.
+type Dst36 struct {
+	F00 *S3
+	F01 *S3
+	F02 *S3
+	F03 *S3
+	F04 *S3
+	F05 *S3
+	F06 *S3
+	F07 *S3
+	F08 *S3
+	F09 *S3
+	F10 *S3
+	F11 *S3
+	F12 *S3
+	F13 *S3
+	F14 *S3
+	F15 *S3
+	F16 *S3
+	F17 *S3
+	F18 *S3
+	F19 *S3
+	F20 *S3
+	F21 *S3
+	F22 *S3
+	F23 *S3
+	F24 *S3
+	F25 *S3
+	F26 *S3
+	F27 *S3
+	F28 *S3
+	F29 *S3
+	F30 *S3
+	F31 *S3
+	F32 *S3
+	F33 *S3
+	F34 *S3
+	F35 *S3
+	F36 *S3
+	F37 *S3
+	F38 *S3
+	F39 *S3
+	F40 *S3
+	F41 *S3
+	F42 *S3
+}
+
+// Dst37: every field has type *ext.ID.
+type Dst37 struct {
+	F00 *ext.ID
+	F01 *ext.ID
+	F02 *ext.ID
+	F03 *ext.ID
+	F04 *ext.ID
+	F05 *ext.ID
+	F06 *ext.ID
+	F07 *ext.ID
+	F08 *ext.ID
+	F09 *ext.ID
+	F10 *ext.ID
+	F11 *ext.ID
+	F12 *ext.ID
+	F13 *ext.ID
+	F14 *ext.ID
+	F15 *ext.ID
+	F16 *ext.ID
+	F17 *ext.ID
+	F18 *ext.ID
+	F19 *ext.ID
+	F20 *ext.ID
+	F21 *ext.ID
+	F22 *ext.ID
+	F23 *ext.ID
+	F24 *ext.ID
+	F25 *ext.ID
+	F26 *ext.ID
+	F27 *ext.ID
+	F28 *ext.ID
+	F29 *ext.ID
+	F30 *ext.ID
+	F31 *ext.ID
+	F32 *ext.ID
+	F33 *ext.ID
+	F34 *ext.ID
+	F35 *ext.ID
+	F36 *ext.ID
+	F37 *ext.ID
+	F38 *ext.ID
+	F39 *ext.ID
+	F40 *ext.ID
+	F41 *ext.ID
+	F42 *ext.ID
+}
+
+// Dst38: every field has type []*S3.
+type Dst38 struct {
+	F00 []*S3
+	F01 []*S3
+	F02 []*S3
+	F03 []*S3
+	F04 []*S3
+	F05 []*S3
+	F06 []*S3
+	F07 []*S3
+	F08 []*S3
+	F09 []*S3
+	F10 []*S3
+	F11 []*S3
+	F12 []*S3
+	F13 []*S3
+	F14 []*S3
+	F15 []*S3
+	F16 []*S3
+	F17 []*S3
+	F18 []*S3
+	F19 []*S3
+	F20 []*S3
+	F21 []*S3
+	F22 []*S3
+	F23 []*S3
+	F24 []*S3
+	F25 []*S3
+	F26 []*S3
+	F27 []*S3
+	F28 []*S3
+	F29 []*S3
+	F30 []*S3
+	F31 []*S3
+	F32 []*S3
+	F33 []*S3
+	F34 []*S3
+	F35 []*S3
+	F36 []*S3
+	F37 []*S3
+	F38 []*S3
+	F39 []*S3
+	F40 []*S3
+	F41 []*S3
+	F42 []*S3
+}
+
+// Dst39: every field has type []*MyInt.
+type Dst39 struct {
+	F00 []*MyInt
+	F01 []*MyInt
+	F02 []*MyInt
+	F03 []*MyInt
+	F04 []*MyInt
+	F05 []*MyInt
+	F06 []*MyInt
+	F07 []*MyInt
+	F08 []*MyInt
+	F09 []*MyInt
+	F10 []*MyInt
+	F11 []*MyInt
+	F12 []*MyInt
+	F13 []*MyInt
+	F14 []*MyInt
+	F15 []*MyInt
+	F16 []*MyInt
+	F17 []*MyInt
+	F18 []*MyInt
+	F19 []*MyInt
+	F20 []*MyInt
+	F21 []*MyInt
+	F22 []*MyInt
+	F23 []*MyInt
+	F24 []*MyInt
+	F25 []*MyInt
+	F26 []*MyInt
+	F27 []*MyInt
+	F28 []*MyInt
+	F29 []*MyInt
+	F30 []*MyInt
+	F31 []*MyInt
+	F32 []*MyInt
+	F33 []*MyInt
+	F34 []*MyInt
+	F35 []*MyInt
+	F36 []*MyInt
+	F37 []*MyInt
+	F38 []*MyInt
+	F39 []*MyInt
+	F40 []*MyInt
+	F41 []*MyInt
+	F42 []*MyInt
+}
+
+// Dst40: every field has type ext.Box.
+type Dst40 struct {
+	F00 ext.Box
+	F01 ext.Box
+	F02 ext.Box
+	F03 ext.Box
+	F04 ext.Box
+	F05 ext.Box
+	F06 ext.Box
+	F07 ext.Box
+	F08 ext.Box
+	F09 ext.Box
+	F10 ext.Box
+	F11 ext.Box
+	F12 ext.Box
+	F13 ext.Box
+	F14 ext.Box
+	F15 ext.Box
+	F16 ext.Box
+	F17 ext.Box
+	F18 ext.Box
+	F19 ext.Box
+	F20 ext.Box
+	F21 ext.Box
+	F22 ext.Box
+	F23 ext.Box
+	F24 ext.Box
+	F25 ext.Box
+	F26 ext.Box
+	F27 ext.Box
+	F28 ext.Box
+	F29 ext.Box
+	F30 ext.Box
+	F31 ext.Box
+	F32 ext.Box
+	F33 ext.Box
+	F34 ext.Box
+	F35 ext.Box
+	F36 ext.Box
+	F37 ext.Box
+	F38 ext.Box
+	F39 ext.Box
+	F40 ext.Box
+	F41 ext.Box
+	F42 ext.Box
+}
+
+// Dst41: every field has type []ext2.T.
+type Dst41 struct {
+	F00 []ext2.T
+	F01 []ext2.T
+	F02 []ext2.T
+	F03 []ext2.T
+	F04 []ext2.T
+	F05 []ext2.T
+	F06 []ext2.T
+	F07 []ext2.T
+	F08 []ext2.T
+	F09 []ext2.T
+	F10 []ext2.T
+	F11 []ext2.T
+	F12 []ext2.T
+	F13 []ext2.T
+	F14 []ext2.T
+	F15 []ext2.T
+	F16 []ext2.T
+	F17 []ext2.T
+	F18 []ext2.T
+	F19 []ext2.T
+	F20 []ext2.T
+	F21 []ext2.T
+	F22 []ext2.T
+	F23 []ext2.T
+	F24 []ext2.T
+	F25 []ext2.T
+	F26 []ext2.T
+	F27 []ext2.T
+	F28 []ext2.T
+	F29 []ext2.T
+	F30 []ext2.T
+	F31 []ext2.T
+	F32 []ext2.T
+	F33 []ext2.T
+	F34 []ext2.T
+	F35 []ext2.T
+	F36 []ext2.T
+	F37 []ext2.T
+	F38 []ext2.T
+	F39 []ext2.T
+	F40 []ext2.T
+	F41 []ext2.T
+	F42 []ext2.T
+}
+
+// Dst42: every field has type ext2.Code.
+type Dst42 struct {
+	F00 ext2.Code
+	F01 ext2.Code
+	F02 ext2.Code
+	F03 ext2.Code
+	F04 ext2.Code
+	F05 ext2.Code
+	F06 ext2.Code
+	F07 ext2.Code
+	F08 ext2.Code
+	F09 ext2.Code
+	F10 ext2.Code
+	F11 ext2.Code
+	F12 ext2.Code
+	F13 ext2.Code
+	F14 ext2.Code
+	F15 ext2.Code
+	F16 ext2.Code
+	F17 ext2.Code
+	F18 ext2.Code
+	F19 ext2.Code
+	F20 ext2.Code
+	F21 ext2.Code
+	F22 ext2.Code
+	F23 ext2.Code
+	F24 ext2.Code
+	F25 ext2.Code
+	F26 ext2.Code
+	F27 ext2.Code
+	F28 ext2.Code
+	F29 ext2.Code
+	F30 ext2.Code
+	F31 ext2.Code
+	F32 ext2.Code
+	F33 ext2.Code
+	F34 ext2.Code
+	F35 ext2.Code
+	F36 ext2.Code
+	F37 ext2.Code
+	F38 ext2.Code
+	F39 ext2.Code
+	F40 ext2.Code
+	F41 ext2.Code
+	F42 ext2.Code
+}
